@@ -114,7 +114,7 @@ func init() {
 	names := []string{"arith8", "arith16", "arith32", "arith64", "ideal", "compare", "builtins", "arrays", "jumps", "calls", "refined"}
 	register(&PropSpec{ID: "C04", Level: "model_checking",
 		Outside: []string{
-			"programs other than the ten functions of harness/wuffs/tv/tv.wuffs; coroutines, I/O types, slices, tables, iterate, choose, io_bind/io_limit, signed integers, statuses (the reference interpreter does not model them)",
+			"programs other than the eleven functions of harness/wuffs/tv/tv.wuffs; coroutines, I/O types, slices, tables, iterate, choose, io_bind/io_limit, signed integers, statuses (the reference interpreter does not model them)",
 			"sequences of more than one public call (one call from an arbitrary receiver state inside the field refinements)",
 			"arguments outside their refinements, except for the rejection itself (harness_tv_refined: both bounds of two refined parameters)",
 		},
